@@ -41,3 +41,27 @@ Example C08_nonvacuous :
   ops_ok [] 0 ops /\ ref_exec [] 0 ops = [2; 0; 3] /\ forward (fst (h_exec h_init ops)) = [2; 0; 3]
   /\ size (fst (h_exec h_init ops)) = 3%Z.
 Proof. vm_compute. repeat split; auto. Qed.
+
+(* value view.  Unconditionally (whatever the links): an operation stores exactly the payloads of the nodes it creates,
+   at the next unused addresses in creation order, and changes no other payload *)
+Theorem C08_step_payloads : forall h op,
+  fresh (fst (h_step h op)) = fresh h + length (new_vals op)
+  /\ (forall m, m < fresh h -> dat (fst (h_step h op)) m = dat h m)
+  /\ (forall i, i < length (new_vals op) -> dat (fst (h_step h op)) (fresh h + i) = nth i (new_vals op) 0%Z).
+Proof. exact step_payloads. Qed.
+Print Assumptions C08_step_payloads.
+
+(* every history: iterating the list (`__iter__`) yields the payloads given at creation time, arranged exactly as the
+   reference sequence of node identities says; the number of nodes ever created is the number of payloads given *)
+Theorem C08_values : forall ops, ops_ok [] 0 ops ->
+  let h := fst (h_exec h_init ops) in
+  map (dat h) (forward h) = map (fun a => nth a (payloads ops) 0%Z) (ref_exec [] 0 ops)
+  /\ fresh h = length (payloads ops).
+Proof. exact dll_values. Qed.
+Print Assumptions C08_values.
+
+Example C08_values_nonvacuous :
+  let ops := [DExtend [5; 6; 7; 8]%Z; DMoveAfter 0 2; DPrepend 9%Z; DRotate true; DRemove 1; DMoveToBack 3] in
+  ops_ok [] 0 ops /\ payloads ops = [5; 6; 7; 8; 9]%Z
+  /\ map (dat (fst (h_exec h_init ops))) (forward (fst (h_exec h_init ops))) = [7; 5; 9; 8]%Z.
+Proof. vm_compute. repeat split; auto. Qed.
